@@ -128,7 +128,7 @@ PROPS = {
         "assumptions": COMMON_ASSUME + [
             "a UDP socket is a datagram sink: one conn.Write is one datagram or an error; loopback delivers in order and (up to 65507 bytes) whole; the socket's behaviour per send is an input oracle of the model (delivered / send error / sent but nobody listens)",
             "errors are compared as classes (nil, not-open, too-large, send-error, other); thrift.INVALID_DATA and thrift.NOT_OPEN are the same TTransportException type id (1), so the two are told apart by message",
-            "the model follows repair D9 (poison after a refused write until the next Flush, which discards; the reporter flushes once after an emit that failed on a write); on the pinned tree the difference is the open finding",
+            "the model follows the repaired code (D9: a refused write marks the message incomplete until the next Flush, which discards it; the multi transport writes and flushes every destination and returns the first error; the reporter flushes once after an emit that failed on a write)",
             "through TMultiUDPTransport the property is judged strictly at every destination until a socket fault is injected, afterwards only datagram length and use-after-close (the property promises fan-out only when no destination fails)",
         ],
         "trusted_base": [
@@ -178,5 +178,20 @@ PROPS = {
             "two metrics with the same full name and tags (e.g. SubScope(a).Counter(b) and Counter(a.b)) share one snapshot key: the theorems are per metric identity, the oracle groups by key",
         ],
         "trusted_base": ["Model.Scope.snapshot is tied by the differential on random histories with snapshots at random points"],
+    },
+    "C14": {
+        "suites": ["c14", "c14race"],
+        "assumptions": COMMON_ASSUME + [
+            "channels: a send on a buffered channel is enabled iff it is open and not full (a send on a closed channel panics, also inside a select), a receive from a closed channel is always enabled, closing a closed channel panics, `range` over a channel ends when it is closed and drained (Go spec); modelled as the queue/closed flags of Model.M3Life",
+            "queue capacity >= 1 (NewReporter replaces MaxQueueSize <= 0 by 4096: tie queue_capacity_positive)",
+            "liveness is proved as: an enabled step exists whenever a call has not returned (no_deadlock) and every step other than the arrival of a new call decreases a measure (close_terminates_under_fairness); the assumptions are (i) the Go scheduler eventually runs every runnable goroutine (the spin loop yields with Gosched), (ii) no infinite stream of NEW overlapping calls keeps pending non-zero at every spin check, (iii) the batching goroutine's UDP write returns",
+            "the worker goroutines (process, timeLoop) are not schedule-controlled: in the lock-step the driver lets the model's consumer/clock take their enabled steps right before wg.Wait and before the books are compared; their effect is observed through the m3.process.charge hook, the sink and the goroutine census",
+            "data-race freedom in the sense of the Go memory model is not expressible in the interleaving model: it is checked by the Go race detector on a dedicated test binary (harness/racec14) and, as an observable consequence, by a value-integrity run",
+        ],
+        "trusted_base": [
+            "cooperative scheduler on the verif yield hooks (harness/sched.go); hook-to-hook granularity: send + deferred Dec (and Dec + next Inc) are one scheduler step, the finer interleavings are covered by the theorems only",
+            "Go race detector (go test -race, needs cgo) and runtime.Stack(all) for the goroutine census",
+        ],
+        "timeout": {"quick": 300, "thorough": 3000},
     },
 }
